@@ -569,6 +569,203 @@ theorem broadcastDims_sound (σ : Binding) (shapes : List (List Dim)) (cs : List
     rw [← maxRank_eq σ H1] at H2
     exact bcastPadded_sound σ _ _ _ res out (pads_hold σ _ H1) H2 h
 
+/-! ## verified consistency checker for the small vocabulary -/
+
+theorem dimsLeB_sound : ∀ (l' l : List Dim), dimsLeB l' l = true → Forall₂ DimLe l' l
+  | [], [], _ => .nil
+  | d' :: l', d :: l, h => by
+    simp only [dimsLeB, Bool.and_eq_true] at h
+    refine .cons ?_ (dimsLeB_sound l' l h.2)
+    simp only [dimLeB, Bool.or_eq_true, beq_iff_eq] at h
+    exact h.1
+  | [], _ :: _, h => by simp [dimsLeB] at h
+  | _ :: _, [], h => by simp [dimsLeB] at h
+
+theorem annotWeakerB_sound (σ : Binding) (a' a : Annot) (t : RT) (h : annotWeakerB a' a = true)
+    (ha : annotHolds σ a t) : annotHolds σ a' t := by
+  simp only [annotWeakerB, Bool.and_eq_true, Bool.or_eq_true] at h
+  obtain ⟨hdt, hdims⟩ := h
+  refine ⟨?_, ?_⟩
+  · intro d hd
+    rcases hdt with h1 | h1
+    · rw [hd] at h1; simp at h1
+    · have : a'.dtype = a.dtype := by simpa using h1
+      exact ha.1 d (this ▸ hd)
+  · intro ds hds
+    rw [hds] at hdims
+    cases hl : a.dims with
+    | none => rw [hl] at hdims; simp at hdims
+    | some l =>
+      rw [hl] at hdims
+      exact forall₂_dimLe_sound σ (dimsLeB_sound ds l hdims) t.shape (ha.2 l hl)
+
+/-- What the run time does at a vocabulary node (`ρ` = runtime dtype and shape of every value). -/
+def NodeSem (ρ : String → RT) (n : Node) : Prop :=
+  match vocabKind n with
+  | .unary x y => ρ y = ρ x
+  | .binary a b y => (ρ y).dtype = (ρ a).dtype ∧ NpBroadcast [(ρ a).shape, (ρ b).shape] (ρ y).shape
+  | .other => True
+
+def holdsAt (σ : Binding) (ρ : String → RT) (vi : List (String × Annot)) (x : String) : Prop :=
+  annotHolds σ (annotOf vi x) (ρ x)
+
+theorem vocab_unary_shape (n : Node) (x y : String) (h : vocabKind n = .unary x y) :
+    n.ins = [x] ∧ n.outsRaw = [y] := by
+  unfold vocabKind at h
+  split at h
+  · cases h
+  · split at h
+    · split at h
+      · rename_i x' y' hi ho
+        simp only [VocabKind.unary.injEq] at h
+        exact ⟨by rw [hi, h.1], by rw [ho, h.2]⟩
+      · cases h
+    · split at h
+      · split at h <;> cases h
+      · cases h
+
+theorem vocab_binary_shape (n : Node) (a b y : String) (h : vocabKind n = .binary a b y) :
+    n.ins = [a, b] ∧ n.outsRaw = [y] := by
+  unfold vocabKind at h
+  split at h
+  · cases h
+  · split at h
+    · split at h <;> cases h
+    · split at h
+      · split at h
+        · rename_i a' b' y' hi ho
+          simp only [VocabKind.binary.injEq] at h
+          exact ⟨by rw [hi, h.1, h.2.1], by rw [ho, h.2.2]⟩
+        · cases h
+      · cases h
+
+/-- one accepted vocabulary node: true input annotations + runtime semantics ⇒ true output annotations -/
+theorem nodeConsistent_sound (σ : Binding) (ρ : String → RT) (vi : List (String × Annot)) (n : Node)
+    (hc : nodeConsistent vi n = true) (hv : inVocab n = true) (hs : NodeSem ρ n)
+    (hin : ∀ x ∈ n.ins, holdsAt σ ρ vi x) : ∀ y ∈ n.outsRaw, holdsAt σ ρ vi y := by
+  unfold nodeConsistent at hc
+  unfold NodeSem at hs
+  unfold inVocab at hv
+  cases hk : vocabKind n with
+  | unary x y =>
+    rw [hk] at hc hs
+    obtain ⟨hi, ho⟩ := vocab_unary_shape n x y hk
+    intro y' hy'
+    rw [ho] at hy'
+    simp only [List.mem_singleton] at hy'
+    subst hy'
+    have hx := hin x (by rw [hi]; exact List.mem_singleton_self x)
+    unfold holdsAt at hx ⊢
+    simp only at hs
+    rw [hs]
+    exact annotWeakerB_sound σ _ _ _ hc hx
+  | binary a b y =>
+    rw [hk] at hc hs
+    obtain ⟨hi, ho⟩ := vocab_binary_shape n a b y hk
+    intro y' hy'
+    rw [ho] at hy'
+    simp only [List.mem_singleton] at hy'
+    subst hy'
+    have ha := hin a (by rw [hi]; simp)
+    have hb := hin b (by rw [hi]; simp)
+    unfold holdsAt at ha hb ⊢
+    simp only [Bool.and_eq_true, Bool.or_eq_true] at hc
+    obtain ⟨hdt, hdims⟩ := hc
+    simp only at hs
+    obtain ⟨hsd, hsb⟩ := hs
+    refine ⟨?_, ?_⟩
+    · intro d hd
+      rcases hdt with h1 | h1
+      · rw [hd] at h1; simp at h1
+      · have e : (annotOf vi y').dtype = (annotOf vi a).dtype := by simpa using h1
+        rw [hsd]
+        exact ha.1 d (e ▸ hd)
+    · intro ds hds
+      rw [hds] at hdims
+      simp only at hdims
+      cases hla : (annotOf vi a).dims with
+      | none => rw [hla] at hdims; simp at hdims
+      | some la =>
+        cases hlb : (annotOf vi b).dims with
+        | none => rw [hla, hlb] at hdims; simp at hdims
+        | some lb =>
+          rw [hla, hlb] at hdims
+          simp only at hdims
+          cases hr : broadcastDims [la, lb] with
+          | none => rw [hr] at hdims; simp at hdims
+          | some r =>
+            rw [hr] at hdims
+            simp only at hdims
+            have H1 : Forall₂ (Forall₂ (dimHolds σ)) [la, lb] [(ρ a).shape, (ρ b).shape] :=
+              .cons (ha.2 la hla) (.cons (hb.2 lb hlb) .nil)
+            have hres := broadcastDims_sound σ [la, lb] _ r _ H1 hsb hr
+            exact forall₂_dimLe_sound σ (dimsLeB_sound ds r hdims) _ hres
+  | other => rw [hk] at hv; cases hv
+
+theorem definedBy_append (l₁ l₂ : List Node) : definedBy (l₁ ++ l₂) = definedBy l₁ ++ definedBy l₂ := by
+  simp [definedBy]
+
+theorem outs_sub_outsRaw (n : Node) : ∀ y ∈ n.outs, y ∈ n.outsRaw := by
+  cases n with
+  | mk d o i u a b =>
+    intro y hy
+    simp only [Node.outs] at hy
+    exact (List.mem_filter.mp hy).1
+
+/-- **Soundness of the consistency checker** (one scope; the driver runs it on every scope).
+    Hypotheses: the run time behaves as ONNX says at vocabulary nodes (`hsem`); annotations of values
+    not defined by a node of this scope — graph inputs, initializers, captured outer values — are true
+    (`hext`); output annotations of nodes OUTSIDE the vocabulary are true (`hother`, the part that is
+    only observed in ORT); nodes are in definition-before-use order (`htopo`, property C03).
+    Then every annotation of every node output of the scope is true at run time. -/
+theorem annotConsistent_sound (σ : Binding) (ρ : String → RT) (g : Graph)
+    (hc : annotConsistent g = true)
+    (hsem : ∀ n ∈ g.nodes, NodeSem ρ n)
+    (hext : ∀ x, x ∉ definedBy g.nodes → holdsAt σ ρ g.vinfo x)
+    (hother : ∀ n ∈ g.nodes, inVocab n = false → ∀ y ∈ n.outs, holdsAt σ ρ g.vinfo y)
+    (htopo : ∀ i n, g.nodes[i]? = some n → ∀ x ∈ n.ins, x ∈ definedBy g.nodes →
+        x ∈ definedBy (g.nodes.take i)) :
+    ∀ y ∈ definedBy g.nodes, holdsAt σ ρ g.vinfo y := by
+  have key : ∀ k, ∀ y ∈ definedBy (g.nodes.take k), holdsAt σ ρ g.vinfo y := by
+    intro k
+    induction k with
+    | zero => intro y hy; simp [definedBy] at hy
+    | succ k ih =>
+      intro y hy
+      cases hn : g.nodes[k]? with
+      | none =>
+        have hlen : g.nodes.length ≤ k := by
+          rcases Nat.lt_or_ge k g.nodes.length with h | h
+          · have := List.getElem?_eq_getElem h; rw [this] at hn; cases hn
+          · exact h
+        rw [List.take_of_length_le (by omega)] at hy
+        rw [List.take_of_length_le hlen] at ih
+        exact ih y hy
+      | some n =>
+        have hk : k < g.nodes.length := by
+          rcases Nat.lt_or_ge k g.nodes.length with h | h
+          · exact h
+          · have := List.getElem?_eq_none h; rw [this] at hn; cases hn
+        have htake : g.nodes.take (k + 1) = g.nodes.take k ++ [n] := by
+          rw [List.take_add_one, hn]; rfl
+        rw [htake, definedBy_append] at hy
+        rcases List.mem_append.mp hy with hy | hy
+        · exact ih y hy
+        · have hy' : y ∈ n.outs := by simpa [definedBy] using hy
+          have hmem : n ∈ g.nodes := List.mem_of_getElem? hn
+          by_cases hv : inVocab n = true
+          · have hcn : nodeConsistent g.vinfo n = true := (List.all_eq_true.mp hc) n hmem
+            refine nodeConsistent_sound σ ρ g.vinfo n hcn hv (hsem n hmem) ?_ y (outs_sub_outsRaw n y hy')
+            intro x hx
+            by_cases hd : x ∈ definedBy g.nodes
+            · exact ih x (htopo k n hn x hx hd)
+            · exact hext x hd
+          · have hv' : inVocab n = false := by simpa using hv
+            exact hother n hmem hv' y hy'
+  intro y hy
+  have := key g.nodes.length y (by rw [List.take_length]; exact hy)
+  exact this
+
 /-! ## non-vacuity -/
 
 def exLoop : Graph :=
@@ -598,5 +795,17 @@ example : NpBroadcast [[5, 1, 3], [4, 1]] [5, 4, 3] :=
   ⟨5, [4, 3], rfl, ⟨by decide, by decide⟩, 4, [3], rfl, ⟨by decide, by decide⟩, 3, [], rfl,
     ⟨by decide, by decide⟩, rfl⟩
 example : dimHolds (fun _ => 5) (.sym "B") 5 := rfl
+
+def exVocab (yAnn : Annot) : Graph :=
+  .mk ["x", "b"] [] [.mk "" "Add" ["x", "b"] ["s"] [] [], .mk "" "Tanh" ["s"] ["y"] [] []] ["y"]
+    [("x", ⟨some 1, some [.sym "B", .known 3]⟩), ("b", ⟨some 1, some [.known 3]⟩),
+     ("s", ⟨some 1, some [.sym "B", .known 3]⟩), ("y", yAnn)]
+
+example : annotConsistent (exVocab ⟨some 1, some [.sym "B", .known 3]⟩) = true := by decide
+example : annotConsistent (exVocab ⟨some 1, some [.unk, .known 3]⟩) = true := by decide
+example : annotConsistent (exVocab ⟨some 1, some [.known 3, .known 3]⟩) = false := by decide   -- wrong dim
+example : annotConsistent (exVocab ⟨some 11, some [.sym "B", .known 3]⟩) = false := by decide  -- wrong dtype
+example : annotConsistent (exVocab ⟨some 1, some [.known 3]⟩) = false := by decide             -- wrong rank
+example : consistentStats (exVocab ⟨some 1, some [.sym "B", .known 3]⟩) = (2, 2) := by decide
 
 end J2O.C08
